@@ -9,6 +9,7 @@ import (
 	"runtime/metrics"
 	"sort"
 	"strings"
+	"sync"
 	"time"
 
 	"github.com/gcash/bchd/chaincfg/chainhash"
@@ -61,6 +62,12 @@ func (m *c08mon) allocs() uint64 {
 // run executes one call into the code under test under the panic and
 // allocation monitors.  inputLen is the size of the untrusted input in bytes.
 func (m *c08mon) run(target string, inputLen int, desc func() string, f func()) (completed bool) {
+	return m.runBound(target, uint64(c08allocBase)+uint64(c08allocPerByte)*uint64(inputLen), "1 MiB + 64 KiB per input byte", inputLen, desc, f)
+}
+
+// runBound is run with an explicit allocation bound (entry points whose
+// honest cost per input byte is known to be small get a tighter one).
+func (m *c08mon) runBound(target string, bound uint64, boundText string, inputLen int, desc func() string, f func()) (completed bool) {
 	c := m.c
 	before := m.allocs()
 	ok := c.Call(target, desc, f)
@@ -70,23 +77,46 @@ func (m *c08mon) run(target string, inputLen int, desc func() string, f func()) 
 	if !ok {
 		return false
 	}
-	bound := uint64(c08allocBase) + uint64(c08allocPerByte)*uint64(inputLen)
 	if r := float64(delta) / float64(bound); r > m.maxRatio {
 		m.maxRatio = r
 	}
 	if delta <= bound {
 		return true
 	}
-	// over the bound: attribute the excess to an allocation site
-	site, bytesAt, total := c08attribute(f)
-	if total <= bound {
-		c.Inconclusive("alloc-excess-not-reproduced/" + target)
-		return true
+	// over the bound: attribute the excess to an allocation site (a profiled
+	// re-run; after three attributions for the same entry point in this
+	// process the last site is reused: the re-run costs ~0.2 s)
+	c08attrMu.Lock()
+	memo := c08attrMemo[target]
+	c08attrMu.Unlock()
+	var site string
+	var bytesAt, total uint64
+	if memo.n >= 3 {
+		site, bytesAt, total = memo.site, 0, delta
+	} else {
+		site, bytesAt, total = c08attribute(f)
+		if total <= bound {
+			c.Inconclusive("alloc-excess-not-reproduced/" + target)
+			return true
+		}
+		c08attrMu.Lock()
+		c08attrMemo[target] = c08memo{memo.n + 1, site}
+		c08attrMu.Unlock()
 	}
-	c.Failf("alloc/"+target+"/"+site, "%s allocated %d bytes for an input of %d bytes (bound %d = 1 MiB + 64 KiB per input byte); dominant allocation site %s (%d bytes)\ninput: %s",
-		target, total, inputLen, bound, site, bytesAt, desc())
+	c.Failf("alloc/"+target+"/"+site, "%s allocated %d bytes for an input of %d bytes (bound %d = %s); dominant allocation site %s (%d bytes)\ninput: %s",
+		target, total, inputLen, bound, boundText, site, bytesAt, desc())
 	return true
 }
+
+type c08memo struct {
+	n    int
+	site string
+}
+
+var (
+	c08attrMu   sync.Mutex
+	c08attrMemo = map[string]c08memo{}
+)
 
 // c08attribute re-runs f with every allocation profiled and returns the
 // innermost non-runtime function of the stack that allocated most.
@@ -521,6 +551,47 @@ func c08merkleCase(c *vf.Ctx, i int) {
 		}
 		c.Inc("merkle/wire-decoded")
 		m.run("merkleblock.ExtractMatches", len(raw), func() string { return "wire bytes " + hx(raw) }, func() { c08exercisePartial(merkleblock.NewMerkleBlockFromMsg(msg)) })
+		return
+	}
+	if i%3 == 1 && i%2 == 0 {
+		// a well-formed sparse proof (hashes of pruned branches are arbitrary) for
+		// MANY matched leaves under a claimed transaction count of any size: a
+		// few kilobytes of input, whatever the claim; honest extraction costs
+		// two to three times the message size
+		r := c.R
+		max := wire.MaxBlockPayload() / 61
+		count := []uint32{128, 1 << 10, 1 << 16, 1 << 17, 1 << 20, 1<<21 + 1, max - 1, max}[r.Intn(8)]
+		if r.Chance(1, 4) {
+			count = 2 + uint32(r.Intn(int(max)-2))
+		}
+		k := []int{1, 2, 8, 64, 65, 66, 100, 255, 256, 300}[r.Intn(10)]
+		targets := make([]uint32, 0, k)
+		if r.Bool() { // clustered: few hashes
+			base := uint32(r.Intn(int(count)))
+			for j := 0; j < k; j++ {
+				targets = append(targets, (base+uint32(j))%count)
+			}
+		} else {
+			for j := 0; j < k; j++ {
+				targets = append(targets, uint32(r.Intn(int(count))))
+			}
+		}
+		hashes, flags := c12virtualProof(r, count, targets, 0)
+		msg := wire.MsgMerkleBlock{Transactions: count, Flags: flags}
+		copy(msg.Header.PrevBlock[:], r.Bytes(32))
+		for j := range hashes {
+			hh := chainhash.Hash(hashes[j])
+			msg.Hashes = append(msg.Hashes, &hh)
+		}
+		size := 84 + 32*len(hashes) + len(flags)
+		c.Nontrivial(vf.Mix(uint64(count), uint64(len(hashes)), vf.HashBytes(flags)))
+		c.Inc("merkle/sparse-proof-many-matches")
+		if count >= 1<<20 && k >= 65 {
+			c.Inc("merkle/sparse-proof-65+matches-under-count>=2^20")
+		}
+		m.runBound("merkleblock.ExtractMatches", 256<<10+64*uint64(size), "256 KiB + 64 bytes per input byte (well-formed sparse proof)", size, func() string {
+			return fmt.Sprintf("MsgMerkleBlock{Transactions:%d, len(Hashes):%d, Flags:%x} (sparse proof for %d leaves)", count, len(hashes), flags, k)
+		}, func() { c08exercisePartial(merkleblock.NewMerkleBlockFromMsg(msg)) })
 		return
 	}
 	msg, size := c08merkleMsg(c.R)
